@@ -14,7 +14,7 @@ def gen(rng, tier):
     n = 250 if tier == "quick" else 20000
     out = []
     for _ in range(n):
-        st = laylib.setup(rng, mode=rng.choice([0, 0, 1, 2, 3]))
+        st = laylib.setup(rng, mode=rng.choice([0, 0, 1, 2, 3]), popts=True, relative=rng.random() < 0.2)
         files = laylib.files_of(st["cmds"])
         r = rng.random()
         if r < 0.25 or not files: pol = "cb reject"
@@ -40,7 +40,10 @@ def oracle(s, ilines):
             checks = [x.rsplit(":", 1) for x in m.group(1).split(",") if x]
             opens = [x for x in m.group(2).split(",") if x]
             accepted = [p for p, ok in checks if ok == "1"]
-            for p in opens:
+            # names not starting with '/' are opened through realpath(): the opened name is then not the name asked about
+            relative = any(not vlib.dec(p).startswith(b"/") for p, ok in checks)
+            if relative and len(opens) > len(accepted): return "%s: %d files opened, %d accepted by the callback" % (t, len(opens), len(accepted))
+            for p in ([] if relative else opens):
                 if p not in accepted: return "%s: file %s opened without having been accepted by the callback" % (t, vlib.dec(p))
             if any(ok == "0" for p, ok in checks):
                 if not l.startswith("rc=21"): return "%s: a file was rejected but the call returned %s" % (t, l.split()[0])
